@@ -71,6 +71,47 @@ Section C05_rest.
     split; [eapply (rest_divergence_residual W P toM divc lap clip toM_lin divc_lin lap_lin clip_lin c grav T0 cst); eassumption|].
     eapply (rest_divergence_steady W P toM divc lap clip toM_lin divc_lin lap_lin clip_lin c grav T0 cst); eassumption.
   Qed.
+
+  (** the same for the moist classes (MoistPrimitiveEquations): uniform specific humidity q0 (nodal gradient of q = 0),
+      lnps = cst*one - g/(R T0 (1 + eps q0)) orog with eps = Rv/R - 1.  Additional hypotheses: the analysed constant
+      field has no laplacian ([lap (toM 1) = 0]) and laplacian(lnps) survives to_nodal -> to_modal under the clip.
+      Divergence residual: g/(1 + eps q0) (lap orog - clip(lap orog)). *)
+  Theorem C05_rest_isothermal_steady_moist (c : @PEcfg F) (grav T0 cst : F) (X : P -> @NCol F) (dv Tm : nat -> W -> F)
+          (onem orog lnpsm : W -> F) (m : @Moist F) (q0 : F) (q gqx gqy : P -> nat -> F) (lapn : P -> F) :
+    cR c * T0 <> 0 -> (forall k, cTref c k = T0) ->
+    (forall p k, n_u (X p) k = 0) -> (forall p k, n_v (X p) k = 0) ->
+    (forall p k, n_div (X p) k = 0) -> (forall p k, n_temp (X p) k = 0) ->
+    (forall k w, dv k w = 0) -> (forall k w, Tm k w = 0) ->
+    (forall w, lap onem w = 0) ->
+    (forall p k, q p k = q0) -> (forall p k, gqx p k = 0) -> (forall p k, gqy p k = 0) ->
+    cR c <> 0 -> 1 + (mRv m / cR c - 1) * q0 <> 0 ->
+    (forall w, lnpsm w = cst * onem w - grav / (cR c * T0 * (1 + (mRv m / cR c - 1) * q0)) * orog w) ->
+    (forall w, lap (toM (fun _ => 1)) w = 0) ->
+    (forall w, clip (toM lapn) w = clip (lap lnpsm) w) ->
+    forall r w,
+      temp_tendency_explicit_moist W P toM divc clip c m X q r w + temp_tendency_implicit W c dv r w = 0 /\
+      vort_tendency_explicit W P toM curlc clip c X (fun p => rt_moist c m (X p) (q p))
+                             (fun w' => humidity_curl_modal W P toM c m X gqx gqy r w') r w = 0 /\
+      clip (toM (fun p => log_pressure_tendency c (X p))) w + lnps_implicit_col c (fun s => dv s w) = 0 /\
+      div_tendency_explicit W P toM divc lap clip c grav X (fun p => rt_moist c m (X p) (q p)) orog
+                            (fun w' => humidity_div_modal W P toM lap c m X q gqx gqy lapn r w') r w
+      + div_tendency_implicit W lap c Tm lnpsm r w
+      = grav / (1 + (mRv m / cR c - 1) * q0) * (lap orog w - clip (lap orog) w) /\
+      (clip (lap orog) w = lap orog w ->
+       div_tendency_explicit W P toM divc lap clip c grav X (fun p => rt_moist c m (X p) (q p)) orog
+                             (fun w' => humidity_div_modal W P toM lap c m X q gqx gqy lapn r w') r w
+       + div_tendency_implicit W lap c Tm lnpsm r w = 0).
+  Proof.
+    intros H1 H2 H3 H4 H5 H6 H7 H8 H10 Hq Hgx Hgy HR Hmf Hhyd Hone Hlapn r w.
+    split; [apply (rest_temperature_steady_moist W P toM divc clip toM_lin divc_lin clip_lin c X H3 H4 H5 H6 dv H7 m q)|].
+    split; [apply (rest_vorticity_steady_moist W P toM curlc clip toM_lin curlc_lin clip_lin c X H3 H4 H5 H6 m q gqx gqy Hgx Hgy)|].
+    split; [apply rest_lnps_steady; assumption|].
+    split.
+    - eapply (rest_divergence_residual_moist W P toM divc lap clip toM_lin divc_lin lap_lin clip_lin c grav T0 cst H1 H2 X H3 H4 H5 H6 Tm H8
+                onem orog H10 m q0 q gqx gqy lapn Hq Hgx Hgy lnpsm HR Hmf Hhyd Hone Hlapn).
+    - eapply (rest_divergence_steady_moist W P toM divc lap clip toM_lin divc_lin lap_lin clip_lin c grav T0 cst H1 H2 X H3 H4 H5 H6 Tm H8
+                onem orog H10 m q0 q gqx gqy lapn Hq Hgx Hgy lnpsm HR Hmf Hhyd Hone Hlapn).
+  Qed.
 End C05_rest.
 
 (** * (B) column refinement *)
@@ -127,6 +168,93 @@ Section C05_column.
                   + cR c * (T k * (1 + (mRv m / cR c - 1) * q k)) * n_gy x).
   Proof. intros; apply refines_momentum; assumption. Qed.
 End C05_column.
+
+(** * (B') modal layer: the model's divergence / vorticity tendencies are the clipped modal operators applied
+    to the analysed specification quantities.  Exactness hypotheses used: [H_div_grad], [H_curl_grad], [lap_const]
+    (and [H_leibniz], [H_leibniz_curl] for the moist classes) - the table obligations checked by C04/C02 - plus b_0 = 0.
+    NOT assumed and NOT proved: that to_modal of a nodal product is the exact spectral projection of the product of the
+    continuous fields (alias-freeness); that last link to the continuous equations is Oracle A of the plugin. *)
+Section C05_modal.
+  Context {F : Type} {o : Ops F} {Fc : FieldC o}.
+  Variables W P : Type.
+  Variable toM : (P -> F) -> W -> F.
+  Variable divc curlc : (W -> F) -> (W -> F) -> W -> F.
+  Variable lap clip : (W -> F) -> W -> F.
+  Hypothesis toM_lin : Thm.PrimEq.linear toM.
+  Hypothesis divc_lin : Thm.PrimEq.linear2 divc.
+  Hypothesis curlc_lin : Thm.PrimEq.linear2 curlc.
+  Hypothesis lap_lin : Thm.PrimEq.linear lap.
+  Hypothesis clip_lin : Thm.PrimEq.linear clip.
+  Variable c : @PEcfg F.
+  Hypothesis b_top : cb c 0%nat = 0.
+  Variable grav : F.
+  Variable X : P -> @NCol F.
+  Variable T : nat -> P -> F.
+  Variable Tm : nat -> W -> F.
+  Variable lnps onem orog : W -> F.
+  Hypothesis H_div_grad : forall w,
+      clip (divc (toM (fun p => n_gx (X p) * n_sec2 (X p))) (toM (fun p => n_gy (X p) * n_sec2 (X p)))) w = lap lnps w.
+  Hypothesis H_curl_grad : forall w,
+      clip (curlc (toM (fun p => n_gx (X p) * n_sec2 (X p))) (toM (fun p => n_gy (X p) * n_sec2 (X p)))) w = 0.
+  Hypothesis lap_const : forall w, lap onem w = 0.
+  Notation sP := (spec_P P c X).
+  Notation sQ := (spec_Q P c X).
+  Notation rtd := (rt_abs P c T).
+
+  (** dry / with-time classes, any reference profile [Tref]:
+      explicit + implicit divergence tendency = clip( -div(spec momentum) - lap(KE + g orog) ) - lap(G.T);
+      in the documented form -div(...) - lap(KE + Phi) when G.T has nothing in the clipped wavenumber;
+      explicit vorticity tendency = clip( -curl(spec momentum) ). *)
+  Theorem C05_primeq_refines_spec (Tref : nat -> F) r w :
+    (r < cK c)%nat ->
+    div_tendency_explicit W P toM divc lap clip (with_tref c Tref) grav (Xs P X T Tref)
+                          (fun p => rt_dry (with_tref c Tref) (Xs P X T Tref p)) orog (fun _ => 0) r w
+    + div_tendency_implicit W lap (with_tref c Tref) (Tms W Tm onem Tref) lnps r w
+    = clip (fun w' => - divc (toM (fun p => sP rtd p r)) (toM (fun p => sQ rtd p r)) w'
+                      - lap (fun w2 => toM (fun p => kinetic (X p) r) w2 + grav * orog w2) w') w
+      - lap (fun w' => geo_diff false c (fun k => Tm k w') r) w
+    /\ (clip (lap (fun w' => geo_diff false c (fun k => Tm k w') r)) w = lap (fun w' => geo_diff false c (fun k => Tm k w') r) w ->
+        div_tendency_explicit W P toM divc lap clip (with_tref c Tref) grav (Xs P X T Tref)
+                              (fun p => rt_dry (with_tref c Tref) (Xs P X T Tref p)) orog (fun _ => 0) r w
+        + div_tendency_implicit W lap (with_tref c Tref) (Tms W Tm onem Tref) lnps r w
+        = clip (fun w' => - divc (toM (fun p => sP rtd p r)) (toM (fun p => sQ rtd p r)) w'
+                          - lap (fun w2 => toM (fun p => kinetic (X p) r) w2
+                                           + spec_phi c (grav * orog w2) (fun k => Tm k w2) r) w') w)
+    /\ vort_tendency_explicit W P toM curlc clip (with_tref c Tref) (Xs P X T Tref)
+                              (fun p => rt_dry (with_tref c Tref) (Xs P X T Tref p)) (fun _ => 0) r w
+       = clip (fun w' => - curlc (toM (fun p => sP rtd p r)) (toM (fun p => sQ rtd p r)) w') w.
+  Proof.
+    intros Hr. split; [|split].
+    - apply refines_divergence_modal; assumption.
+    - intros Hc. apply refines_divergence_modal_energy; assumption.
+    - apply refines_vorticity_modal; assumption.
+  Qed.
+
+  (** moist classes: R Tv in the momentum vector, the humidity part of the geopotential evaluated at the nodes *)
+  Theorem C05_primeq_refines_spec_modal_moist (m : @Moist F) (q gqx gqy : P -> nat -> F) (lapn : P -> F) (Tref : nat -> F) r w :
+    cR c <> 0 ->
+    (forall r w, clip (fun w' => divc (toM (qgx P X q r)) (toM (qgy P X q r)) w' - toM (leib_div P X q gqx gqy lapn r) w') w = 0) ->
+    (forall r w, clip (fun w' => curlc (toM (qgx P X q r)) (toM (qgy P X q r)) w' + toM (leib_curl P X gqx gqy r) w') w = 0) ->
+    (r < cK c)%nat ->
+    let rtv := rtv_abs P c T m q in
+    div_tendency_explicit W P toM divc lap clip (with_tref c Tref) grav (Xs P X T Tref)
+        (fun p => rt_moist (with_tref c Tref) m (Xs P X T Tref p) (q p)) orog
+        (fun w' => humidity_div_modal W P toM lap (with_tref c Tref) m (Xs P X T Tref) q gqx gqy lapn r w') r w
+    + div_tendency_implicit W lap (with_tref c Tref) (Tms W Tm onem Tref) lnps r w
+    = clip (fun w' => - divc (toM (fun p => sP rtv p r)) (toM (fun p => sQ rtv p r)) w'
+                      - lap (fun w2 => toM (fun p => kinetic (X p) r) w2 + grav * orog w2
+                                       + toM (fun p => geo_diff false c (fun k => q p k * T k p * (mRv m / cR c - 1)) r) w2) w') w
+      - lap (fun w' => geo_diff false c (fun k => Tm k w') r) w
+    /\ vort_tendency_explicit W P toM curlc clip (with_tref c Tref) (Xs P X T Tref)
+          (fun p => rt_moist (with_tref c Tref) m (Xs P X T Tref p) (q p))
+          (fun w' => humidity_curl_modal W P toM (with_tref c Tref) m (Xs P X T Tref) gqx gqy r w') r w
+       = clip (fun w' => - curlc (toM (fun p => sP rtv p r)) (toM (fun p => sQ rtv p r)) w') w.
+  Proof.
+    intros HR HL HLc Hr rtv. split.
+    - apply refines_divergence_modal_moist; assumption.
+    - apply refines_vorticity_modal_moist; assumption.
+  Qed.
+End C05_modal.
 
 (** * (C) specification level: abstract commutative differential ring of smooth fields *)
 Section C05_spec.
@@ -363,10 +491,98 @@ Proof.
   apply Qc_is_canon. vm_compute. reflexivity.
 Qed.
 
+(** * non-vacuity of the modal-layer hypotheses (B'): one coefficient / one node, to_modal = clip = identity,
+    div(x,y) = x + y, curl(x,y) = b x - a y with (a,b) the analysed sec^2 grad(lnps), laplacian = -2 *)
+Definition ex_colm : @NCol Qc :=
+  mkNCol (q3 [3#20; -(3#28); 1#2]%Q) (q3 [-(1#10); 1#4; 1#7]%Q) (q3 [1#3; -(1#2); 2#5]%Q) (q3 [1#9; 1#8; -(1#6)]%Q)
+         (fun _ => 0) (Q2Qc (1#3)) (Q2Qc (-(1#5))) (Q2Qc (4#3)) (Q2Qc (1#2)).
+Definition tC (a b : Qc) (x y : unit -> Qc) (w : unit) : Qc := b * x tt - a * y tt.
+Example C05_modal_hyps_satisfiable :
+  let X := fun _ : unit => ex_colm in
+  let ga := n_gx ex_colm * n_sec2 ex_colm in let gb := n_gy ex_colm * n_sec2 ex_colm in
+  let lnps := fun _ : unit => (ga + gb) * Q2Qc (-(1#2)) in
+  let onem := fun _ : unit => (0 : Qc) in
+  let q := fun (_ : unit) (k : nat) => q3 [1#100; 1#50; 3#100]%Q k in
+  let gq0 := fun (_ : unit) (_ : nat) => (0 : Qc) in
+  let lapn := fun _ : unit => ga + gb in
+  Thm.PrimEq.linear tI /\ Thm.PrimEq.linear2 tD /\ Thm.PrimEq.linear2 (tC ga gb) /\ Thm.PrimEq.linear tL /\
+  cb ex_cfg 0%nat = 0 /\ cR ex_cfg <> 0 /\
+  (forall w, tI (tD (tI (fun p => n_gx (X p) * n_sec2 (X p))) (tI (fun p => n_gy (X p) * n_sec2 (X p)))) w = tL lnps w) /\
+  (forall w, tI (tC ga gb (tI (fun p => n_gx (X p) * n_sec2 (X p))) (tI (fun p => n_gy (X p) * n_sec2 (X p)))) w = 0) /\
+  (forall w, tL onem w = 0) /\
+  (forall r w, tI (fun w' => tD (tI (qgx unit X q r)) (tI (qgy unit X q r)) w' - tI (leib_div unit X q gq0 gq0 lapn r) w') w = 0) /\
+  (forall r w, tI (fun w' => tC ga gb (tI (qgx unit X q r)) (tI (qgy unit X q r)) w' + tI (leib_curl unit X gq0 gq0 r) w') w = 0) /\
+  tL lnps tt <> 0.
+Proof.
+  cbv zeta.
+  split; [split; [intros x y H b; apply H | intros; unfold tI; cbn; ring]|].
+  split; [split; [intros x1 y1 x2 y2 H1 H2 b; unfold tD; now rewrite H1, H2 | intros; unfold tD; cbn; ring]|].
+  split; [split; [intros x1 y1 x2 y2 H1 H2 w; unfold tC; now rewrite H1, H2 | intros; unfold tC; cbn; ring]|].
+  split; [split; [intros x y H b; unfold tL; now rewrite H | intros; unfold tL; cbn; ring]|].
+  split; [apply Qc_is_canon; vm_compute; reflexivity|].
+  split; [intro H; vm_compute in H; discriminate H|].
+  split; [intros w; apply Qc_is_canon; vm_compute; reflexivity|].
+  split; [intros w; unfold tI, tC; cbn; ring|].
+  split; [intros w; apply Qc_is_canon; vm_compute; reflexivity|].
+  split; [intros r w; unfold tI, tD, qgx, qgy, leib_div; cbn; ring|].
+  split; [intros r w; unfold tI, tC, qgx, qgy, leib_curl; cbn; ring|].
+  intro H; vm_compute in H; discriminate H.
+Qed.
+
+(** * non-vacuity of the moist rest-state hypotheses: two nodes / two coefficients (mean and wave),
+    to_modal = (mean, half difference), laplacian = (0, -2), clip = identity, orography with a wave component *)
+Definition h2 : Qc := Q2Qc (1#2).
+Definition toM2 (f : bool -> Qc) (w : bool) : Qc := if w then (f true - f false) * h2 else (f true + f false) * h2.
+Definition toN2 (x : bool -> Qc) (p : bool) : Qc := if p then x false + x true else x false - x true.
+Definition lap2 (x : bool -> Qc) (w : bool) : Qc := if w then Q2Qc (-(2#1)) * x true else 0.
+Definition id2 (x : bool -> Qc) (w : bool) : Qc := x w.
+Definition div2 (x y : bool -> Qc) (w : bool) : Qc := x w + y w.
+Definition curl2 (x y : bool -> Qc) (w : bool) : Qc := x w - y w.
+Definition ex_rest2 (p : bool) : @NCol Qc :=
+  mkNCol (fun _ => 0) (fun _ => 0) (fun _ => 0) (fun _ => 0) (fun _ => 0)
+         (if p then Q2Qc (1#3) else Q2Qc (-(1#4))) (Q2Qc (-(1#5))) (if p then Q2Qc (4#3) else Q2Qc (5#4)) (Q2Qc (1#2)).
+Example C05_rest_moist_hyps_satisfiable :
+  let m := mkMoist (Q2Qc (3#7)) (Q2Qc (2#1)) in
+  let q0 := Q2Qc (1#100) in let grav := Q2Qc (9#1) in let T0 := Q2Qc (250#1) in
+  let onem := fun w : bool => if w then (0 : Qc) else 1 in
+  let orog := fun w : bool => if w then Q2Qc (1#10) else Q2Qc (3#1) in
+  let lnpsm := fun w : bool => Q2Qc (3#1) * onem w - grav / (cR ex_cfg * T0 * (1 + (mRv m / cR ex_cfg - 1) * q0)) * orog w in
+  let lapn := toN2 (lap2 lnpsm) in
+  let q := fun (_ : bool) (_ : nat) => q0 in let gq0 := fun (_ : bool) (_ : nat) => (0 : Qc) in
+  Thm.PrimEq.linear toM2 /\ Thm.PrimEq.linear2 div2 /\ Thm.PrimEq.linear2 curl2 /\ Thm.PrimEq.linear lap2 /\ Thm.PrimEq.linear id2 /\
+  cR ex_cfg * T0 <> 0 /\ cR ex_cfg <> 0 /\ 1 + (mRv m / cR ex_cfg - 1) * q0 <> 0 /\
+  (forall w, lap2 onem w = 0) /\ (forall w, lap2 (toM2 (fun _ => 1)) w = 0) /\
+  (forall w, id2 (toM2 lapn) w = id2 (lap2 lnpsm) w) /\
+  (forall w, id2 (lap2 orog) w = lap2 orog w) /\
+  div_tendency_implicit bool lap2 ex_cfg (fun _ _ => 0) lnpsm 1 true <> 0 /\
+  div_tendency_explicit bool bool toM2 div2 lap2 id2 ex_cfg grav ex_rest2 (fun p => rt_moist ex_cfg m (ex_rest2 p) (q p)) orog
+                        (fun w' => humidity_div_modal bool bool toM2 lap2 ex_cfg m ex_rest2 q gq0 gq0 lapn 1 w') 1 true
+  + div_tendency_implicit bool lap2 ex_cfg (fun _ _ => 0) lnpsm 1 true = 0.
+Proof.
+  cbv zeta.
+  split; [split; [intros x y H b; unfold toM2; now rewrite !H | intros t x y b; unfold toM2; destruct b; cbn; ring]|].
+  split; [split; [intros x1 y1 x2 y2 H1 H2 b; unfold div2; now rewrite H1, H2 | intros; unfold div2; cbn; ring]|].
+  split; [split; [intros x1 y1 x2 y2 H1 H2 b; unfold curl2; now rewrite H1, H2 | intros; unfold curl2; cbn; ring]|].
+  split; [split; [intros x y H b; unfold lap2; now rewrite H | intros t x y b; unfold lap2; destruct b; cbn; ring]|].
+  split; [split; [intros x y H b; apply H | intros; unfold id2; cbn; ring]|].
+  split; [intro H; vm_compute in H; discriminate H|].
+  split; [intro H; vm_compute in H; discriminate H|].
+  split; [intro H; vm_compute in H; discriminate H|].
+  split; [intros w; destruct w; apply Qc_is_canon; vm_compute; reflexivity|].
+  split; [intros w; destruct w; apply Qc_is_canon; vm_compute; reflexivity|].
+  split; [intros w; destruct w; apply Qc_is_canon; vm_compute; reflexivity|].
+  split; [intros w; reflexivity|].
+  split; [intro H; vm_compute in H; discriminate H|].
+  apply Qc_is_canon. vm_compute. reflexivity.
+Qed.
+
 Print Assumptions C05_rest_isothermal_steady.
 Print Assumptions C05_primeq_column_refines_spec.
 Print Assumptions C05_primeq_column_refines_spec_moist.
 Print Assumptions C05_primeq_column_refines_momentum.
+Print Assumptions C05_primeq_refines_spec.
+Print Assumptions C05_primeq_refines_spec_modal_moist.
+Print Assumptions C05_rest_isothermal_steady_moist.
 Print Assumptions C05_flux_form_is_advective_form.
 Print Assumptions C05_operators.
 Print Assumptions C05_zonal_polynomial_derivative.
@@ -380,3 +596,5 @@ Print Assumptions C05_solid_body_steady_series.
 Print Assumptions C05_sw_solid_body_series.
 Print Assumptions C05_rest_isothermal_steady_R.
 Print Assumptions C05_hyps_satisfiable.
+Print Assumptions C05_modal_hyps_satisfiable.
+Print Assumptions C05_rest_moist_hyps_satisfiable.
